@@ -87,6 +87,7 @@ package cosmoslane
 //@   requires forall m *vestingtypes.MsgCreatePeriodicVestingAccount :: vestTo(type(*vestingtypes.MsgCreatePeriodicVestingAccount), m) == m.ToAddress
 //@   requires forall m *vestingtypes.MsgCreatePermanentLockedAccount :: vestTo(type(*vestingtypes.MsgCreatePermanentLockedAccount), m) == m.ToAddress
 //@   requires tx != nil && txUnpacked(payload(tx))
+//@   requires forall a bytes :: {vauthProof[layer(ctx)][a]} vauthProof[layer(ctx)][a] == kvHas[kvId(layer(ctx), payload(vmd.vak.storeKey))][vauthProofKey(a)]
 //@   modifies everything
 // own panics: sdk.MustAccAddressFromBech32 on a to_address that is not bech32 (finding A2: nothing validates it earlier)
 //@   panics[C20.own_code_panics] only_if hcPanics[hcN[0]] || (!single(payload(tx)) && (exists i int :: 0 <= i && i < txNMsgs(payload(tx)) && isVestingCreate(txMsgTag(payload(tx), i)) && !bech32Valid(vestTo(txMsgTag(payload(tx), i), txMsgObj(payload(tx), i)))))
